@@ -144,6 +144,25 @@ PROPS['C13'] = {
                     'LiteIdentityKeyStore.__init__/_storeLocalData/getIdentityKeyPair and LiteAxolotlStore delegations are not under contract'],
 }
 
+PROPS['C16'] = {
+    'sidecars': ['contracts/C16_lifecycle.py', 'contracts/C12_locks.py'],
+    'level': 'other',
+    'explanation': 'Per-handler contracts and the state invariant, all discharged: network layer (onConnected / onDisconnected / '
+                   'onConnectionError / onConnectLayerEvent / onDisconnectLayerEvent / createConnection / destroyConnection / send / receive) '
+                   'with the invariant state==CONNECTED => connected, connected => state in {CONNECTED, DISCONNECTING} and a dispatcher exists: '
+                   'a connect announces itself once, a down-announcement is emitted exactly on a state change (once per connection that was '
+                   'up or being set up), nothing is written unless connected, a connect resets the disconnect reason and creates a fresh '
+                   'dispatcher; asyncore dispatcher callbacks alternate; authentication layer: connected -> one login broadcast with the '
+                   'passive prop, success -> one AUTHED broadcast then the entity, failure -> entity up then one DISCONNECT; interface: stream '
+                   'error delivered, reconnect iff option on and not a conflict, pending reconnect consumed by exactly one connect; iq '
+                   'keep-alive: waitPong/gotPong (queue size, DISCONNECT broadcast iff >= 2 outstanding), stop_thread/onDisconnect(ed). '
+                   'The history claim (all event histories) follows by induction over these handlers and is NOT mechanised: level other. '
+                   'Not decided: anything depending on the ping thread racing the network thread; onAuthed (thread start) and the socket '
+                   'dispatcher are not under contract.',
+    'assumptions': ['the dispatcher object, getProp, emitEvent/broadcastEvent/toUpper and the entity parsers are opaque events',
+                    'threading.Lock sequential model (from C12)', 'event delivery order between layers is taken from C18'],
+}
+
 NOT_APPLICABLE = {
     'C11': 'quantifies over thread interleavings (2-4 sender threads through lock/queue operations); no verifier available here '
            'has a thread or permission model and sequential contracts cannot express "for every schedule" (DESIGN.md section 8)',
